@@ -364,7 +364,8 @@ theorem gen_export_pinned :
     Gen.replaceRec = ["&n.Children[i], n.ID", "nodes, parent"] ∧
     Gen.replaceRanges = ["n.Points", "n.Children"] ∧
     Gen.sendNodeIfs = ["origin != \"\"", "node.Points[i].Origin == \"\"", "node.EdgePoints[i].Origin == \"\"", "node.ID == \"\"",
-      "node.Parent == \"\" || node.Parent == \"none\"", "err != nil", "len(node.EdgePoints) <= 0", "err != nil"] ∧
+      "node.Parent == \"\" || node.Parent == \"none\"", "err != nil", "p.Type == data.PointTypeTombstone && (p.Key == \"\" || p.Key == \"0\")",
+      "!hasTombstone", "err != nil"] ∧
     Gen.sendNodeSends = ["nc, node.ID, points, true", "nc, node.ID, node.Parent, node.EdgePoints, true"] := by
   decide
 
